@@ -211,7 +211,11 @@ func (d *dialHooks) PostDial(s erpc.PreSession, isRedial bool) *erpc.Status {
 	if isRedial {
 		atomic.AddInt32(&d.redial, 1)
 	}
-	d.rec.Emit("DialHook", "redial", isRedial)
+	// what a dial hook is there for: it configures the new connection through the PreSession it is given
+	// (socket options by way of ControlFD), on the first dial and on every re-dial alike
+	fdSeen := false
+	s.ControlFD(func(fd uintptr) { fdSeen = fd != 0 })
+	d.rec.Emit("DialHook", "redial", isRedial, "fd", fdSeen)
 	return nil
 }
 
